@@ -219,11 +219,58 @@ theorem C16_allow_only (fields wl : List String) (stmts : List Stmt) (p : String
     · rintro ⟨s, ⟨hs, ha⟩, hp⟩; exact ⟨s, hs, ha, hp⟩
     · rintro ⟨s, hs, ha, hp⟩; exact ⟨s, ⟨hs, ha⟩, hp⟩
 
+/-- C16_deny_invisible: statements whose effect is not Allow are invisible to both queries — dropping them all,
+    or inserting any number of them anywhere, leaves the answers unchanged (equal as lists, not only as sets). -/
+theorem C16_deny_invisible (fields wl : List String) (stmts : List Stmt) :
+    nonWhitelistedAllowed fields wl stmts =
+      nonWhitelistedAllowed fields wl (stmts.filter fun s => isAllow s.effect) ∧
+    allowedPrincipals fields stmts = allowedPrincipals fields (stmts.filter fun s => isAllow s.effect) := by
+  simp [nonWhitelistedAllowed, allowedPrincipals, List.filter_filter]
+
+/-- C16_append: a document's answer is the concatenation of the answers of its parts, so a statement contributes
+    the same whatever stands before or after it. -/
+theorem C16_append (fields wl : List String) (xs ys : List Stmt) :
+    nonWhitelistedAllowed fields wl (xs ++ ys) =
+      nonWhitelistedAllowed fields wl xs ++ nonWhitelistedAllowed fields wl ys ∧
+    allowedPrincipals fields (xs ++ ys) = allowedPrincipals fields xs ++ allowedPrincipals fields ys := by
+  simp [nonWhitelistedAllowed, allowedPrincipals, List.filter_append, List.flatMap_append]
+
+/-- C16_deny_insert: inserting one non-Allow statement between any two parts changes neither answer. -/
+theorem C16_deny_insert (fields wl : List String) (xs ys : List Stmt) (d : Stmt) (hd : isAllow d.effect = false) :
+    nonWhitelistedAllowed fields wl (xs ++ d :: ys) = nonWhitelistedAllowed fields wl (xs ++ ys) ∧
+    allowedPrincipals fields (xs ++ d :: ys) = allowedPrincipals fields (xs ++ ys) := by
+  simp [nonWhitelistedAllowed, allowedPrincipals, List.filter_append, List.filter_cons, hd]
+
+/-- C16_whitelist_extremes: with an empty whitelist every named principal is reported, with a whitelist that
+    contains every named principal none is; and a larger whitelist never reports more. -/
+theorem C16_whitelist_extremes (wl wl' ps : List String) :
+    nonWhitelisted [] ps = ps ∧
+    ((∀ p ∈ ps, p ∈ wl) → nonWhitelisted wl ps = []) ∧
+    ((∀ p ∈ wl, p ∈ wl') → ∀ p, p ∈ nonWhitelisted wl' ps → p ∈ nonWhitelisted wl ps) := by
+  refine ⟨by simp [nonWhitelisted], ?_, ?_⟩
+  · intro h
+    simp only [nonWhitelisted, List.filter_eq_nil_iff]
+    intro p hp; simp [h p hp]
+  · intro h p
+    rw [C16_whitelist, C16_whitelist]
+    rintro ⟨hp, hn⟩; exact ⟨hp, fun hw => hn (h p hw)⟩
+
+/-- C16_whitelist_is_membership: the whitelist test is element equality — a whitelist entry that is a prefix,
+    a pattern or a differently-cased spelling of the principal does not whitelist it. -/
+theorem C16_whitelist_is_membership (w p : String) (h : w ≠ p) : nonWhitelisted [w] [p] = [p] := by
+  have : ¬ p = w := fun e => h e.symm
+  simp [nonWhitelisted, List.contains_cons, this]
+
 -- Non-vacuity
 example : normEffect "aLLOW" = some "Allow" ∧ normEffect "DENY" = some "Deny" ∧ normEffect "Permit" = none := by
   refine ⟨by decide +kernel, by decide +kernel, by decide +kernel⟩
 example : principalList Generated.principalFields
     (.obj [("AWS", .arr [.str "a", .str "b"]), ("CanonicalUser", .null), ("Federated", .null), ("Service", .str "s")])
     (.str "n") = ["a", "b", "s", "n"] := by decide +kernel
+example : nonWhitelistedAllowed Generated.principalFields ["a"]
+    [⟨"Allow", .str "a", .null⟩, ⟨"Deny", .str "d", .null⟩, ⟨"Allow", .arr [.str "b", .str "a"], .str "c"⟩] = ["b", "c"] := by
+  decide +kernel
+example : nonWhitelisted ["arn:aws:iam::1:root"] ["arn:aws:iam::1:ROOT", "arn:aws:iam::1:root/x"] =
+    ["arn:aws:iam::1:ROOT", "arn:aws:iam::1:root/x"] := by decide +kernel
 
 end PycfModel.Policy
